@@ -606,6 +606,11 @@ pub fn cases_parts(o: &mut Outcome, rng: &mut Rng, thorough: bool, parts: Parts)
         }
     }
 
+    // ---- the comment wrapping that calls rewrite_string (model RF/Model/CommentFmt.lean)
+    if parts.cmt {
+        comment_model_cases(o, rng, thorough, &dom, &cmts);
+    }
+
     // ---- end to end through the real formatter
     e2e(o, rng, thorough, parts, &lits);
 }
@@ -614,6 +619,151 @@ pub fn cases_parts(o: &mut Outcome, rng: &mut Rng, thorough: bool, parts: Parts)
 /// (nothing for the continuation regex to strip on the first pass that it would strip differently on the second).
 fn idem_hypothesis(orig: &str) -> bool {
     !orig.contains("\\\n") && !orig.contains("\\\r")
+}
+
+// ------------------------------------------------------------------------------------------------
+// the comment wrapping of comment.rs (`rewrite_comment_inner`, plain-line path) against RF/Model/CommentFmt.lean
+
+#[derive(Clone)]
+struct CmtItem {
+    orig: String,
+    block_style: bool,
+    shape: (usize, usize, usize, usize),
+    wrap: bool,
+    normalize: bool,
+    mw: usize,
+    is_doc: bool,
+    desc: &'static str,
+}
+
+/// Does `rewrite_comment_inner` meet a code block or (under wrap_comments) an itemized block on this comment?
+/// The lines are prepared with the real helpers, as comment.rs:917-940 does.
+fn comment_outside(it: &CmtItem) -> bool {
+    let orig = it.orig.as_str();
+    let line_breaks = orig.trim_end().matches('\n').count();
+    for (i, line) in orig.lines().enumerate() {
+        let mut l = hs::trim_end_unless_two_whitespaces(line.trim_start(), it.is_doc);
+        if i == line_breaks && l.ends_with("*/") && !l.starts_with("//") {
+            l = l[..l.len() - 2].trim_end().to_string();
+        }
+        let l = match guard(|| hs::left_trim_comment_line(&l, orig)) {
+            Some((l, _)) => l,
+            // the real loop panics when it reaches this line
+            None => return false,
+        };
+        let l = if orig.starts_with("/*") && line_breaks == 0 { l.trim_start().to_string() } else { l };
+        if l.starts_with("```") || (it.wrap && hs::marker_length(l.trim_start()).is_some()) {
+            return true;
+        }
+    }
+    false
+}
+
+fn random_comment(rng: &mut Rng) -> (String, bool) {
+    let line = |rng: &mut Rng| -> String {
+        match rng.below(14) {
+            0 => String::new(),
+            1 => "see http://example.com/a/b for this and that and more words here".to_string(),
+            2 => "| a | b | table row with enough text to be long |".to_string(),
+            3 => "# Header of a doc comment that is long enough to wrap around".to_string(),
+            4 => "[link]: some::path::to::an::item and a few more words afterwards".to_string(),
+            5 => format!("{}  ", random_comment_text(rng, false).0),
+            6 => format!("   {}", random_comment_text(rng, false).0),
+            _ => random_comment_text(rng, false).0,
+        }
+    };
+    let n = rng.range(1, 4);
+    match rng.below(9) {
+        0 | 1 | 2 => {
+            let sp = *rng.pick(&[" ", " ", "", "  "]);
+            ((0..n).map(|_| format!("//{}{}", sp, line(rng))).collect::<Vec<_>>().join("\n"), false)
+        }
+        3 => ((0..n).map(|_| format!("/// {}", line(rng))).collect::<Vec<_>>().join("\n"), true),
+        4 => ((0..n).map(|_| format!("//! {}", line(rng))).collect::<Vec<_>>().join("\n"), true),
+        5 => (format!("/* {} */", line(rng).replace("*/", "").trim()), false),
+        6 => {
+            let mut s = String::from("/*\n");
+            for _ in 0..n {
+                s.push_str(&format!("{}{}\n", *rng.pick(&[" * ", " * ", "   ", " *", ""]), line(rng)));
+            }
+            s.push_str(" */");
+            (s, false)
+        }
+        7 => {
+            let mut s = String::from(*rng.pick(&["/** ", "/*! ", "/**\n * ", "/*!\n * "]));
+            s.push_str(&line(rng));
+            for _ in 1..n {
+                s.push_str(&format!("\n * {}", line(rng)));
+            }
+            s.push_str(*rng.pick(&[" */", "\n */"]));
+            (s, true)
+        }
+        _ => ((0..n).map(|_| format!("//@ {}", line(rng))).collect::<Vec<_>>().join("\n"), false),
+    }
+}
+
+fn comment_model_cases(o: &mut Outcome, rng: &mut Rng, thorough: bool, dom: &Domain, fixture_cmts: &[String]) {
+    let mut items: Vec<CmtItem> = vec![];
+    let shape_of = |rng: &mut Rng| -> ((usize, usize, usize, usize), usize) {
+        let w = rng.range(8, 80);
+        let (blk, al) = *rng.pick(&[(0usize, 0usize), (4, 0), (8, 0), (4, 3)]);
+        let mw = if rng.chance(1, 2) { 100 } else { blk + al + w };
+        ((w, blk, al, al), mw)
+    };
+    for _ in 0..(if thorough { 40000 } else { 5000 }) {
+        let (orig, doc) = random_comment(rng);
+        let (shape, mw) = shape_of(rng);
+        items.push(CmtItem { orig, block_style: rng.chance(1, 8), shape, wrap: rng.chance(3, 4), normalize: rng.chance(1, 3), mw, is_doc: doc && rng.chance(3, 4), desc: "comment-random" });
+    }
+    for (i, c) in fixture_cmts.iter().enumerate() {
+        if !thorough && i % 3 != (rng.0 % 3) as usize {
+            continue;
+        }
+        let (shape, mw) = shape_of(rng);
+        let doc = c.starts_with("///") || c.starts_with("//!") || c.starts_with("/**") || c.starts_with("/*!");
+        items.push(CmtItem { orig: c.clone(), block_style: false, shape, wrap: true, normalize: rng.chance(1, 2), mw, is_doc: doc, desc: "comment-fixture" });
+    }
+    let reals: Vec<String> = par_map(&items, |it| {
+        let mut c = mk_cfg(it.mw, false, 4);
+        c.set().wrap_comments(it.wrap);
+        c.set().normalize_comments(it.normalize);
+        match guard(|| hs::rewrite_comment_inner(&it.orig, it.block_style, it.shape, &c, it.is_doc)) {
+            None => "panic".to_string(),
+            Some(None) => "none".to_string(),
+            Some(Some(s)) => format!("S:{}", enc_str(&s)),
+        }
+    });
+    for (it, real) in items.iter().zip(reals.into_iter()) {
+        if !dom.contains(&it.orig) {
+            o.count("outside-domain:comment");
+            continue;
+        }
+        let outside = comment_outside(it);
+        o.count(if outside { "comment:itemized-or-code-block (not modelled)" } else if real.starts_with("S:") && real.contains("0a") { "comment:modelled:multi-line" } else { "comment:modelled:one-line" });
+        let req = format!(
+            "cmt.inner {} {} {} {} {} {} {} {} {} 0 4 {}",
+            enc_str(&it.orig), b(it.block_style), it.shape.0, it.shape.1, it.shape.2, it.shape.3, b(it.wrap), b(it.normalize), it.mw, b(it.is_doc)
+        );
+        o.push("corr", "cmt.inner", req, if outside { "outside".into() } else { real }, it.desc.into(), !outside);
+        // the helpers, on the comment and on each of its lines
+        let (k, op) = hs::comment_style(&it.orig, it.normalize);
+        o.push("corr", "cmt.style", format!("cmt.style {} {}", enc_str(&it.orig), b(it.normalize)), if k == 'c' { format!("c:{}", enc_str(&op)) } else { k.to_string() }, it.desc.into(), true);
+        for line in it.orig.lines().take(4) {
+            let t = line.trim_start();
+            let (l, w) = match guard(|| hs::left_trim_comment_line(t, &it.orig)) {
+                Some(x) => x,
+                None => {
+                    o.push("corr", "cmt.lefttrim", format!("cmt.lefttrim {} {}", enc_str(t), enc_str(&it.orig)), "panic".into(), it.desc.into(), true);
+                    continue;
+                }
+            };
+            o.push("corr", "cmt.lefttrim", format!("cmt.lefttrim {} {}", enc_str(t), enc_str(&it.orig)), format!("{}:{}", enc_str(&l), b(w)), it.desc.into(), true);
+            o.push("corr", "cmt.hasurl", format!("cmt.hasurl {}", enc_str(&l)), b(hs::has_url(&l)).into(), it.desc.into(), true);
+            o.push("corr", "cmt.table", format!("cmt.table {}", enc_str(&l)), b(hs::is_table_item(&l)).into(), it.desc.into(), true);
+            o.push("corr", "cmt.trim2", format!("cmt.trim2 {} {}", enc_str(line), b(it.is_doc)), enc_str(&hs::trim_end_unless_two_whitespaces(line, it.is_doc)), it.desc.into(), true);
+            o.push("corr", "cmt.marker", format!("cmt.marker {}", enc_str(l.trim_start())), hs::marker_length(l.trim_start()).map(|n| n.to_string()).unwrap_or_else(|| "none".into()), it.desc.into(), true);
+        }
+    }
 }
 
 // ------------------------------------------------------------------------------------------------
@@ -1057,7 +1207,10 @@ pub fn run(tier: &str, seed: u64, out: &Path) -> i32 {
     let thorough = tier == "thorough";
     let mut o = Outcome::new("STRINGS", tier, seed);
     let mut rng = Rng::new(seed);
-    std::panic::set_hook(Box::new(|_| {}));
+    // panics of the real code are answers (`panic`); keep them off the terminal unless asked for
+    if std::env::var_os("STRINGS_SHOW_PANICS").is_none() {
+        std::panic::set_hook(Box::new(|_| {}));
+    }
     cases(&mut o, &mut rng, thorough);
     // debugging aid: STRINGS_DUMP=<file> writes every failing comparison (the result file keeps three per op)
     if let Ok(path) = std::env::var("STRINGS_DUMP") {
